@@ -65,12 +65,50 @@ def run_events(run, replay, prefix, pid):
         elif 1 <= k <= len(c["truths"]):
             detail["truth"] = c["truths"][k - 1]
         run.violation(b["clause"], odecore.describe(sc) + " t0=%s" % sc["t0"], detail, replay=sc)
+    if not replay and pid == "C08":
+        _dense_twins(run)
     if not replay:
         # spec -> code: behaviours of the design model with events (roots on step boundaries shared by two steps, two functions crossing in
         # one step in either order, terminal after non-terminal, continuation calls) replayed on the real code: the reported events must
         # be exactly the model's, in its order
         modelreplay.phase(run, ["OdeSystemSim_fixed_nofault", "OdeSystemSim_adaptive_nofault", "OdeSystemSim_fixed_nodense", "OdeSystemSim_adaptive_nodense"], pid,
                           ("Events",), keep=modelreplay.has_events)
+
+
+def _twin_job(job):
+    from vf import scen
+    A, B = job
+    ra, rb = scen.run_plain(A), scen.run_plain(B)
+    ra.pop("system"), rb.pop("system")
+    return ra, rb
+
+
+def _dense_twins(run):
+    """C08 "... does not depend on ... whether dense output is kept": the same run with and without dense output records the same rows
+    and the same events, bit for bit (without dense output the library keeps a sliding window of interpolants while events are monitored;
+    Richardson wrappers contribute several pieces per step)."""
+    from vf import gen, twins
+    thorough = run.tier == "thorough"
+    jobs = []
+    meths = ["RK4", "RK45CK", {"rich": "RK4", "levels": 3}, {"rich": "RK45CK", "levels": 2}, "RadauIIA5", "ABAS5O6H"] + \
+            ([{"rich": "RK87", "levels": 4}, "BackwardEuler", "RK87", {"rich": "Midpoint", "levels": 4}] if thorough else [])
+    for m in meths:
+        for (a, b) in ((0.0, 10.0), (10.0, 0.0), (-3.0, -9.0)):
+            A = gen.with_tol(gen.base(m, a, b, 0.25, dense=True))
+            A["ops"] = [{"op": "integrate", "events": [{"kind": "state", "c": c, "comp": k % 2, "s": s} for k, (c, s) in
+                                                        enumerate(((0.3, 1.0), (-0.2, 1e3), (0.75, 1e-3), (-0.6, 1.0)))] +
+                                                       [{"kind": "time", "c": a + (b - a) * 0.37}]}]
+            B = dict(A, dense=False)
+            jobs.append((A, B))
+    res = core.pool_map(_twin_job, jobs)
+    cases = [twins.case(k, "C08.EventsDoNotDependOnDenseOutput", "exact", ra, rb, seq="rows-events") for k, (ra, rb) in enumerate(res)]
+    v = run.judge("TwinJudge", {"cases": cases}, name="C08_dense_twins")
+    run.traces += len(cases)
+    run.evaluations += len(cases)
+    for bad in v["bad"]:
+        A, B = jobs[bad["id"]]
+        run.violation(bad["clause"], "dense on/off " + odecore.describe(A), {"eventsA": len(res[bad["id"]][0]["events"]), "eventsB": len(res[bad["id"]][1]["events"])},
+                      replay=A)
 
 
 def check(run, replay=None):
